@@ -26,10 +26,10 @@ TInit == /\ tid \in 1..Len(Traces)
                    ref |-> Cfg.ref, rtol |-> Cfg.rtol],
                   {Cfg.S0[x] : x \in DOMAIN Cfg.S0}, Cfg.a0, Cfg.i0, Cfg.t0)
 
-Samp(e, k) == [k |-> k, t |-> e.t, u |-> e.u, lo |-> e.lo, hi |-> e.hi, sB |-> e.sB, iB |-> e.iB, hB |-> e.hB,
+Samp(e, k, r) == [k |-> k, t |-> e.t, u |-> e.u, ref |-> r, lo |-> e.lo, hi |-> e.hi, sB |-> e.sB, iB |-> e.iB, hB |-> e.hB,
                avg |-> e.avg, a |-> e.a, i |-> e.i]
 
-CheckOf(e) ==
+CheckOf(e, r) ==
   CASE e.e = "Join" -> JoinCheck(ab, e.m, e.t, e.a, e.i)
     [] e.e = "Leave" -> LeaveCheck(ab, e.m, e.t, e.a, e.i)
     [] e.e \in {"Create", "CloseSeen", "Tick"} -> PlainCheck(ab, e.t, e.a, e.i)
@@ -39,14 +39,14 @@ CheckOf(e) ==
     [] e.e = "Q" -> QuietCheck(ab, e.t, e.a, e.i, e.proj, e.act, e.idl)
     [] e.e = "Disp" -> IF e.r \in reqs THEN "harness.freshRequest"
                        ELSE IF e.c < 0 THEN NoMemberCheck(ab, e.t, e.a, e.i)
-                       ELSE IF e.s = 1 THEN SampleCheck(ab, Samp(e, 1))
+                       ELSE IF e.s = 1 THEN SampleCheck(ab, Samp(e, 1, r))
                        ELSE BlindCheck(ab, 1, e.t, e.u, e.a, e.i)
     [] e.e = "Comp" -> IF e.r \notin reqs THEN "harness.knownRequest"
-                       ELSE IF e.s = 1 THEN SampleCheck(ab, Samp(e, -1))
+                       ELSE IF e.s = 1 THEN SampleCheck(ab, Samp(e, -1, r))
                        ELSE BlindCheck(ab, -1, e.t, e.u, e.a, e.i)
     [] OTHER -> "harness.unknownEvent"
 
-UpdOf(e) ==
+UpdOf(e, r) ==
   CASE e.e = "Join" -> JoinUpd(ab, e.m, e.t, e.a, e.i)
     [] e.e = "Leave" -> LeaveUpd(ab, e.m, e.t, e.a, e.i)
     [] e.e \in {"Create", "CloseSeen", "Tick"} -> PlainUpd(ab, e.t, e.a, e.i)
@@ -55,9 +55,9 @@ UpdOf(e) ==
     [] e.e = "OpenDone" -> OpenDoneUpd(ab, e.c, e.ok, e.t, e.a, e.i)
     [] e.e = "Q" -> QuietUpd(ab, e.t, e.a, e.i, e.proj, e.act, e.idl)
     [] e.e = "Disp" -> IF e.c < 0 THEN NoMemberUpd(ab, e.t, e.a, e.i)
-                       ELSE IF e.s = 1 THEN SampleUpd(ab, Samp(e, 1))
+                       ELSE IF e.s = 1 THEN SampleUpd(ab, Samp(e, 1, r))
                        ELSE BlindUpd(ab, 1, e.t, e.u, e.a, e.i)
-    [] e.e = "Comp" -> IF e.s = 1 THEN SampleUpd(ab, Samp(e, -1))
+    [] e.e = "Comp" -> IF e.s = 1 THEN SampleUpd(ab, Samp(e, -1, r))
                        ELSE BlindUpd(ab, -1, e.t, e.u, e.a, e.i)
 
 ReqsOf(e) ==
@@ -65,13 +65,20 @@ ReqsOf(e) ==
     [] e.e = "Comp" -> reqs \ {e.r}
     [] OTHER -> reqs
 
+\* One event: verdict in the pre-state and successor.  The reference smoothing after a get/put (RefOf) is evaluated
+\* once and handed to check and update.  (TLC caches LET values inside an expression but not the LETs of an action,
+\* hence the step is computed as one value and bound by \E over a singleton.)
+StepOf(e) ==
+  LET r == IF e.e = "Disp" THEN RefOf(ab, 1, e.t, e.u) ELSE IF e.e = "Comp" THEN RefOf(ab, -1, e.t, e.u) ELSE NoRef
+      chk == CheckOf(e, r)
+  IN [chk |-> chk, nxt |-> IF chk = "ok" THEN UpdOf(e, r) ELSE ab]
+
 TNext == /\ verdict = "ok"
          /\ l <= Len(Ev)
-         /\ LET e == Ev[l]
-                chk == CheckOf(e)
-            IN IF chk = "ok"
-               THEN ab' = UpdOf(e) /\ reqs' = ReqsOf(e) /\ l' = l + 1 /\ verdict' = "ok"
-               ELSE verdict' = chk /\ l' = l /\ UNCHANGED <<ab, reqs>>
+         /\ \E res \in {StepOf(Ev[l])} :
+              IF res.chk = "ok"
+              THEN ab' = res.nxt /\ reqs' = ReqsOf(Ev[l]) /\ l' = l + 1 /\ verdict' = "ok"
+              ELSE verdict' = res.chk /\ l' = l /\ UNCHANGED <<ab, reqs>>
          /\ UNCHANGED <<tid, acfg>>
 
 TSpec == TInit /\ [][TNext]_<<avars, tvars>>
